@@ -216,6 +216,13 @@ func main() {
 					provs = append(provs, "shared")
 				}
 			}
+			// an integer is an integer whatever its Go kind: small non-negative integers also handed over as uintptr / int32 / uint16 / uint64
+			ai, aok := a.(int64)
+			bi, bok := b.(int64)
+			small := func(x int64) bool { return x >= 0 && x < 60000 }
+			if aok && bok && small(ai) && small(bi) {
+				provs = append(provs, "uintptr", "mixedint", "uint64")
+			}
 			for _, prov := range provs {
 				set := scripts
 				if prov == "elem" {
@@ -224,6 +231,14 @@ func main() {
 				a, b := a, b
 				if prov == "shared" {
 					a = b.([]interface{})[:len(a.([]interface{}))]
+				}
+				switch prov {
+				case "uintptr":
+					a, b = uintptr(ai), uintptr(bi)
+				case "mixedint":
+					a, b = int32(ai), uint16(bi)
+				case "uint64":
+					a, b = uint64(ai), uint64(bi)
 				}
 				o := map[string]interface{}{"i": i + 1, "j": j + 1, "prov": prov, "problems": []string{}}
 				var problems []string
